@@ -84,6 +84,16 @@ Definition C06_compose_levels_all_atom := CGV.Compose.Statements.C06_compose_lev
 Definition C06_compose_levels_resolve_iso := CGV.Compose.Statements.C06_compose_levels_resolve_iso.
 Definition C06_layered_flat_resolve_iso := CGV.Compose.Statements.C06_layered_flat_resolve_iso.
 Definition C06_coarse_step_any := CGV.Compose.Statements.C06_coarse_step_any.
+(** the isomorphism theorems for any aromaticity transcript admitted by Hydro's contract, the two runs' transcripts
+    agreeing on the orders through phi ([corr_orders]) *)
+Definition C06_layered_flat_resolve_iso_car := CGV.Compose.Statements.C06_layered_flat_resolve_iso_car.
+Definition C06_compose_levels_resolve_iso_car := CGV.Compose.Statements.C06_compose_levels_resolve_iso_car.
+(** per-run tie (clauses 131-134 of the check): when the executable tests pass on a generated hierarchy and on the
+    IMPLEMENTATION's per-level dictionaries, base graph and returned graphs, the hypotheses of [compose_levels] hold of
+    them, the model run returns, and the implementation's returned graphs are the skeletons of the same cuts *)
+Definition C06_run_check_sound := CGV.Compose.Statements.C06_run_check_sound.
+Definition C06_coarse_of_test_sound := CGV.Compose.Statements.C06_coarse_of_test_sound.
+Definition C06_raw_chain_test_sound := CGV.Compose.Statements.C06_raw_chain_test_sound.
 
 Print Assumptions C06_manual_is_prefix_of_iter.
 Print Assumptions C06_compose_flat_bonding_level.
@@ -96,6 +106,11 @@ Print Assumptions C06_compose_levels_all_atom.
 Print Assumptions C06_compose_levels_resolve_iso.
 Print Assumptions C06_layered_flat_resolve_iso.
 Print Assumptions C06_coarse_step_any.
+Print Assumptions C06_layered_flat_resolve_iso_car.
+Print Assumptions C06_compose_levels_resolve_iso_car.
+Print Assumptions C06_run_check_sound.
+Print Assumptions C06_coarse_of_test_sound.
+Print Assumptions C06_raw_chain_test_sound.
 Print Assumptions C06_all_is_last_of_iter.
 Print Assumptions C06_chain.
 Print Assumptions C06_past_end.
